@@ -202,28 +202,37 @@ static std::string runReader(std::map<std::string, std::string>& kv) {
     } catch (const XMLException& e) {
         return "ctor=exc_" + excName(e);          // (the stream is leaked on purpose: ownership is unclear here)
     }
-    hx::Fnv h;
+    // One observation = operation code, its result, line / column / source offset after it, hashed as five 64-bit
+    // words (same mixing as lean/XV/Driver/Reader.lean); the text form is only built for v=1 replays.
+    uint64_t h = 1469598103934665603ULL;
+    auto mix = [&](uint64_t x) { h = (h ^ x) * 1099511628211ULL; };
+    const uint64_t noChar = 0xFFFFFFFFULL;
     size_t nops = 0, nchars = 0;
-    std::vector<uint32_t> head, tail;
+    std::vector<uint32_t> head; uint32_t ring[8] = {0};
     std::string trace, ending;
-    auto push = [&](const std::string& tok) {
+    auto push = [&](char opc, uint64_t val) {
         // (source offsets are left out for PE readers: the injected spaces carry stale fCharSizeBuf entries)
-        std::string full = tok + "@" + std::to_string(rd->getLineNumber()) + ":" + std::to_string(rd->getColumnNumber())
-                         + ":" + (isPE ? std::string("-") : std::to_string((unsigned long long)rd->getSrcOffset())) + ",";
-        h.add(full); nops++;
-        if (verbose) trace += full;
+        const uint64_t ofs = isPE ? 0xFFFFFFFFFFFFFFFFULL : (uint64_t)rd->getSrcOffset();
+        mix((unsigned char)opc); mix(val); mix(rd->getLineNumber()); mix(rd->getColumnNumber()); mix(ofs);
+        nops++;
+        if (verbose) {
+            trace += std::string(1, opc) + (val == noChar ? std::string("E") : hexs(val)) + "@" + std::to_string(rd->getLineNumber()) + ":"
+                   + std::to_string(rd->getColumnNumber()) + ":" + (isPE ? std::string("-") : std::to_string((unsigned long long)ofs)) + ",";
+        }
     };
     auto note = [&](XMLCh c) {
-        nchars++;
         if (head.size() < 12) head.push_back(c);
-        if (tail.size() < 8) tail.push_back(c); else { tail.erase(tail.begin()); tail.push_back(c); }
+        ring[nchars % 8] = c;
+        nchars++;
     };
     auto doSet = [&]() {
         XStr nm(encLong(setName));
         bool b = rd->setEncoding(nm);
-        h.add(b ? "S1," : "S0,");
+        mix(0x53); mix(b ? 1 : 0);
     };
-    const size_t cap = 3 * (data->size() + 16);
+    // every cycle of the script holds a `g`, which consumes a character or ends the run: this bound is never reached
+    // by a terminating reader (`end=cap` = a reader that does not advance)
+    const size_t cap = ops.size() * (data->size() + 16);
     XMLBuffer nameBuf;
     try {
         if (setAt == 0) doSet();
@@ -233,22 +242,22 @@ static std::string runReader(std::map<std::string, std::string>& kv) {
             const char op = ops[i % ops.size()];
             XMLCh c = 0;
             switch (op) {
-                case 'g': if (rd->getNextChar(c)) { push("g" + hexs(c)); note(c); } else { push("gE"); ending = "eof"; } break;
-                case 'p': if (rd->peekNextChar(c)) push("p" + hexs(c)); else push("pE"); break;
-                case 'n': if (rd->getNextCharIfNot(0x3C, c)) { push("n" + hexs(c)); note(c); } else push("nF"); break;
-                case 's': push(rd->skippedSpace() ? "s1" : "s0"); break;
-                case '<': push(rd->skippedChar(0x3C) ? "<1" : "<0"); break;
-                case 'x': push(rd->skippedChar(0x78) ? "x1" : "x0"); break;
-                case 'k': push(rd->skippedString(kCommentStart) ? "k1" : "k0"); break;
-                case 'K': push(rd->peekString(kCDEnd) ? "K1" : "K0"); break;
-                case 'e': push(rd->skippedString(kCharRef) ? "e1" : "e0"); break;
+                case 'g': if (rd->getNextChar(c)) { push('g', c); note(c); } else { push('g', noChar); ending = "eof"; } break;
+                case 'p': if (rd->peekNextChar(c)) push('p', c); else push('p', noChar); break;
+                case 'n': if (rd->getNextCharIfNot(0x3C, c)) { push('n', c); note(c); } else push('n', noChar); break;
+                case 's': push('s', rd->skippedSpace() ? 1 : 0); break;
+                case '<': push('<', rd->skippedChar(0x3C) ? 1 : 0); break;
+                case 'x': push('x', rd->skippedChar(0x78) ? 1 : 0); break;
+                case 'k': push('k', rd->skippedString(kCommentStart) ? 1 : 0); break;
+                case 'K': push('K', rd->peekString(kCDEnd) ? 1 : 0); break;
+                case 'e': push('e', rd->skippedString(kCharRef) ? 1 : 0); break;
                 case 'N': {
                     nameBuf.reset();
                     bool ok = rd->getName(nameBuf, false);
                     hx::Fnv nh; std::string nm;
                     for (XMLSize_t k = 0; k < nameBuf.getLen(); k++) nm += hexs(nameBuf.getRawBuffer()[k]) + ".";
                     nh.add(nm);
-                    push(std::string(ok ? "N1:" : "N0:") + std::to_string(nameBuf.getLen()) + ":" + hexs(nh.h));
+                    push('N', (nh.h ^ (uint64_t)nameBuf.getLen() * 1315423911ULL) * 2 + (ok ? 1 : 0));
                     break;
                 }
                 case 'Q': {
@@ -257,7 +266,7 @@ static std::string runReader(std::map<std::string, std::string>& kv) {
                     hx::Fnv nh; std::string nm;
                     for (XMLSize_t k = 0; k < nameBuf.getLen(); k++) nm += hexs(nameBuf.getRawBuffer()[k]) + ".";
                     nh.add(nm);
-                    push(std::string(ok ? "Q1:" : "Q0:") + std::to_string(nameBuf.getLen()) + ":" + hexs(nh.h));
+                    push('Q', (nh.h ^ (uint64_t)nameBuf.getLen() * 1315423911ULL) * 2 + (ok ? 1 : 0));
                     break;
                 }
                 default: ending = "bad-op";
@@ -266,11 +275,13 @@ static std::string runReader(std::map<std::string, std::string>& kv) {
     } catch (const XMLException& e) {
         ending = "exc_" + excName(e);
     }
-    std::string out = "ctor=ok n=" + std::to_string(nops) + " h=" + hexs(h.h) + " end=" + ending
+    std::string out = "ctor=ok n=" + std::to_string(nops) + " h=" + hexs(h) + " end=" + ending
         + " line=" + std::to_string(rd->getLineNumber()) + " col=" + std::to_string(rd->getColumnNumber());
     // after an exception the offset bookkeeping is half-updated (fSrcOfsBase already advanced): not an observation
     std::string ofs = "-";
     if (!isPE && ending == "eof") { try { ofs = std::to_string((unsigned long long)rd->getSrcOffset()); } catch (...) {} }
+    std::vector<uint32_t> tail;
+    for (size_t k = (nchars > 8 ? nchars - 8 : 0); k < nchars; k++) tail.push_back(ring[k % 8]);
     out += " ofs=" + ofs + " chars=" + std::to_string(nchars) + " head=" + hx::hexList(head) + " tail=" + hx::hexList(tail);
     if (verbose) out += " trace=" + trace;
     delete rd;
